@@ -362,62 +362,51 @@ func extractTagTokensFromComment(tok parser.Token) []semanticToken {
 	baseLine := uint32(tok.Pos.Line - 1)
 	baseCol := uint32(tok.Pos.Column - 1)
 
-	parts := strings.Split(commentText, ",")
-	searchStart := 0
+	// Tags are separated by commas. partStart is where the current part begins in the
+	// comment text, so that every tag is placed inside its own part.
+	partStart := 0
 
-	for _, part := range parts {
+	for _, part := range strings.Split(commentText, ",") {
+		tagStart := partStart + leadingSpace(part)
+		partStart += len(part) + 1
+
 		trimmed := strings.TrimSpace(part)
 		colonIdx := strings.Index(trimmed, ":")
 		if colonIdx == -1 {
 			continue
 		}
 
-		name := strings.TrimSpace(trimmed[:colonIdx])
+		// a tag name is directly followed by its colon
+		name := trimmed[:colonIdx]
 		if name == "" || !isValidTagName(name) {
 			continue
 		}
 
-		// Find the position of this tag in the original comment text
-		tagStart := strings.Index(commentText[searchStart:], name+":")
-		if tagStart == -1 {
-			continue
-		}
-		tagStart += searchStart
-
 		// Tag name with colon: "name:"
-		tagNameWithColonLen := uint32(len(name) + 1)
+		tagNameEnd := tagStart + len(name) + 1
 
 		// +1 to baseCol accounts for the semicolon that starts the comment
 		tokens = append(tokens, semanticToken{
 			line:      baseLine,
 			col:       baseCol + 1 + uint32(tagStart),
-			length:    tagNameWithColonLen,
+			length:    uint32(len(name) + 1),
 			tokenType: TokenTypeTag,
 			modifiers: 0,
 		})
 
-		// Tag value (if present)
-		if colonIdx+1 < len(trimmed) {
-			value := strings.TrimSpace(trimmed[colonIdx+1:])
-			if value != "" {
-				// Find where the value starts in the original text
-				tagNameEnd := tagStart + len(name) + 1
-				valueStart := strings.Index(commentText[tagNameEnd:], value)
-				if valueStart != -1 {
-					tokens = append(tokens, semanticToken{
-						line:      baseLine,
-						col:       baseCol + 1 + uint32(tagNameEnd+valueStart),
-						length:    uint32(len(value)),
-						tokenType: TokenTypeTagValue,
-						modifiers: 0,
-					})
-					searchStart = tagNameEnd + valueStart + len(value)
-					continue
-				}
-			}
+		// Tag value (if present): the rest of the part without surrounding blanks
+		rest := trimmed[colonIdx+1:]
+		value := strings.TrimSpace(rest)
+		if value != "" {
+			valueStart := tagNameEnd + leadingSpace(rest)
+			tokens = append(tokens, semanticToken{
+				line:      baseLine,
+				col:       baseCol + 1 + uint32(valueStart),
+				length:    uint32(len(value)),
+				tokenType: TokenTypeTagValue,
+				modifiers: 0,
+			})
 		}
-
-		searchStart = tagStart + len(name) + 1
 	}
 
 	// If no valid tags found, return nil (comment will be handled normally)
@@ -426,6 +415,11 @@ func extractTagTokensFromComment(tok parser.Token) []semanticToken {
 	}
 
 	return tokens
+}
+
+// leadingSpace returns the number of bytes of white space at the start of s.
+func leadingSpace(s string) int {
+	return len(s) - len(strings.TrimLeftFunc(s, unicode.IsSpace))
 }
 
 func isValidTagName(name string) bool {
